@@ -160,6 +160,7 @@ fn spawn_worker(
         .arg(&out)
         .arg("--marker")
         .arg(&markerp);
+    cmd.env("VCHECK_PARTIAL_OUT", out.with_extension("partial"));
     if let Some((o, i)) = resume {
         cmd.arg("--resume").arg(format!("{}:{}", o, i));
     }
@@ -309,7 +310,22 @@ pub fn run_parent(prop: &'static dyn Property, tier: Tier, seed: u64) -> Outcome
                         }
                         continue;
                     }
-                    // abnormal termination
+                    // abnormal termination: keep what the worker had flushed before it died
+                    // (violations are flushed as they happen; pass counts up to the last flush)
+                    {
+                        let pp = r.out.with_extension("partial");
+                        if let Some(rep) = std::fs::read(&pp)
+                            .ok()
+                            .and_then(|b| serde_json::from_slice::<ShardReport>(&b).ok())
+                        {
+                            if let Ok(hb) = std::fs::read(pp.with_extension("hashes")) {
+                                for c in hb.chunks_exact(8) {
+                                    all_hashes.push(u64::from_le_bytes(c.try_into().unwrap()));
+                                }
+                            }
+                            reports.push(rep);
+                        }
+                    }
                     let ms = marker::read_file(&r.marker);
                     let err_tail = tail(&r.stderr, 6);
                     let code = status.code();
